@@ -55,12 +55,13 @@ def trace_features(trace, verdict):
     f = set(features(trace["cfg"]))
     base, _, k = verdict.partition("@")
     comps = trace["cfg"]["comps"]
-    if base in ("served", "update-raised") and k.isdigit() and 1 <= int(k) <= len(trace["ev"]):
+    if base in ("served", "update-raised", "served-as-modelled", "update-raised-as-modelled") and k.isdigit() \
+            and 1 <= int(k) <= len(trace["ev"]):
         e = trace["ev"][int(k) - 1]
         if 1 <= e["c"] <= len(comps) and any(repeat_below_integ(lk["chain"]) for lk in comps[e["c"] - 1]["ins"]) \
                 and trace["end"]["out"] in ("err:FinamTimeError", "err:TypeError"):
             f.add("update_pulls_through_repeating_delay_into_integration_adapter")
-    if base in ("served", "served-notify") and k.isdigit() and 1 <= int(k) <= len(trace["ev"]):
+    if base in ("served", "served-notify", "served-as-modelled") and k.isdigit() and 1 <= int(k) <= len(trace["ev"]):
         e = trace["ev"][int(k) - 1]
         for r in e["log"] + e["nlog"]:
             if not r["ok"]:
@@ -279,7 +280,8 @@ def check(pid, tier):
         base = verdict.split("@")[0]
         zone = t["cfg"].get("zone", "dag")
         # C04: a delay-resolved cycle must complete "and the scheduling guarantees hold throughout"
-        if pid == "C04" and zone == "resolved" and base in ("served", "avail", "choice", "update-raised", "served-notify"):
+        if pid == "C04" and zone == "resolved" and base in ("served", "avail", "choice", "update-raised", "served-notify", "served-as-modelled",
+                                                        "update-raised-as-modelled"):
             p = pid
         # C03: a valid (acyclic) composition must run to the end: a cycle report there is also a
         # termination failure
